@@ -304,6 +304,12 @@ def run(ctx: Ctx):
     okw = okw and call_kw(tc, "states") is not None and call_kw(tc, "parameters") is not None and util.ctext(cg, call_kw(tc, "states")) != util.ctext(cg, call_kw(tc, "parameters"))
     ctx.check(okw, "R01.f", cg.key("template-wiring"), "the printed body reaches the template's `values` slot of the function named rhs", "CodeGenerator.rhs does not hand the printed assignments to template.method(name='rhs', values=...)", cg.where())
 
+    # ---- R01.i the derivative of each state lands in that state's slot --------------------------------
+    ctx.rule("R01.i", "rhs stores the derivative of each state at the slot that state_index / init_state_values / the state unpacking use (STATE slot family)", floor=6)
+    from .c04 import slot_families
+
+    slot_families(ctx, "R01.i", only_family="STATE", floor=False, producers=lambda p: p.func.qualname in ("CodeGenerator.initial_state_values", "CodeGenerator._state_assignments", "CodeGenerator.rhs"))
+
     ctx.rule("R01.j", "assembly: every expression is built from its own tree with the model-wide symbol table, printed by the backend printer and returned unmodified (no nan_to_num); the module contains imports, index/init functions, rhs", floor=8)
     assembly(ctx, "R01.j")
 
@@ -372,7 +378,14 @@ def check_where_nesting(ctx: Ctx, rule: str, f):
     # the generic (non-Assignment) branch
     loops = [n for n in ast.walk(f.node) if isinstance(n, ast.For) and norm(n.iter) == "zip(conds, exprs)"]
     ok = False
-    why = "loop over zip(conds, exprs) not found"
+    if not loops:
+        # another algorithm builds the nest (the known idiom is a loop over zip(conds, exprs) appending to a list)
+        frs = " ".join(pm.fragments(f))
+        if "numpy.where(" not in frs:
+            ctx.fail(rule, key, "numpy printer _print_Piecewise does not emit numpy.where( at all", f.where())
+        else:
+            ctx.undecided(rule, key, "the where-nest is not built by the known loop over zip(conds, exprs); pairing of branches and conditions is not judged", f.where())
+        return
     if loops:
         l = loops[0]
         c, e = [x.id for x in l.target.elts]
